@@ -14,6 +14,7 @@
    [run .. st_init history = Val s] says the history ran (no routing mutation hit a cloned
    request, which panics in the implementation) and ended in worker state [s]. *)
 From AV Require Import Lib.Base Web.Pool Web.PoolSpec Web.PoolProofs Gen.Consts.
+From AV Require Import Gen.PoolTables Web.PoolTie.
 
 Definition HCAP : N := HEAD_POOL_CAP.      (* actix-http/src/message.rs: pool.len() < 128 *)
 Definition RCAP : N := REQUEST_POOL_CAP.   (* actix-web/src/request.rs: with_capacity(128) *)
@@ -109,6 +110,26 @@ Theorem C11_raw_request_is_default :
   view_of (snd (request HCAP requote root s (mkReq PRaw [] [] 0 [] None 0 exts None))) =
   mkView [71; 69; 84] [47] 11 [] None 0 [47] (requote [47]) 0 [] [] false [root] None exts.
 Proof. intros. erewrite view_determined by eassumption. reflexivity. Qed.
+
+(* ---- Tie of the model to the source text (tools/gen/pool.py -> Gen/PoolTables.v, regenerated on
+   every check run): the reset statements found in RequestHead::clear, in the pooled arm of
+   AppInitService::call and in Drop for HttpRequest, interpreted one by one, are the model's
+   head_clear / obj_reinit / obj_scrub + push, and they carry exactly the guards the model
+   assumes. A reset line deleted, guarded or rewritten in the Rust source breaks one of these. *)
+Theorem C11_tie_head_clear : forall h : head, interp_head HEAD_CLEAR h = head_clear h.
+Proof. exact tie_head_clear. Qed.
+
+Theorem C11_tie_acquire : forall requote (o : obj) (h : head) (q : reqd),
+  interp_acquire requote h q ACQUIRE_REINIT o = obj_reinit requote o h q.
+Proof. exact tie_acquire. Qed.
+
+Theorem C11_tie_drop :
+  (forall o : obj, interp_drop DROP_SCRUB o = (obj_scrub o, true)) /\
+  option_map fst (nth_error (rev DROP_SCRUB) 0) = Some SPush /\
+  forallb (fun p => String.eqb (snd p) NO_GUARD) HEAD_CLEAR = true /\
+  forallb (fun p => String.eqb (snd p) NO_GUARD) ACQUIRE_REINIT = true /\
+  forallb (fun p => String.eqb (snd p) DROP_GUARD) DROP_SCRUB = true.
+Proof. split; [exact tie_drop|]. split; [exact tie_drop_push_last|]. exact tie_guards. Qed.
 
 (* Non-vacuity: request 0 is routed into a scope (captures, skip, resource ids, scoped data),
    gets extensions and conn_data, is cloned and dropped twice; request 1 then really receives the
